@@ -14,6 +14,9 @@ LEVEL = "model_checking"
 def run(tier, rep):
     build_harness()
     progs = fam_c09.programs(tier)
+    # calls made only for their effect in tail position of loop bodies / arms / blocks, for every call form; aggregate literals
+    # taken apart on the spot with effects at depth 0, 1, 2 in selected and non-selected components
+    progs += fam_c09.effect_tail_programs(tier) + fam_c09.literal_elim_programs(tier)
     n_rand = 60 if tier == "quick" else 1500
     progs += [p for p in fam_random.programs(n_rand, seed() + 909, depth=3 if tier == "quick" else 4)]
     cases, counts = famcheck.run_families("C09", rep, progs, "c09")
@@ -29,7 +32,10 @@ def run(tier, rep):
     import c09go
     c09go.run(tier, rep)
     rep.coverage["traces_validated_against_impl"] = rep.coverage.get("disagreements_checked", 0) + rep.coverage.get("go_schedules_checked", 0)
-    rep.coverage["enumerated_positions"] = len([c for c in cases if c["family"] == "c09"])
+    rep.coverage["enumerated_positions"] = len([c for c in cases if c["family"].startswith("c09")])
+    for fam in ("c09-effect-tail", "c09-literal-elim"):
+        if sum(1 for c in cases if c["family"] == fam and c["cls"] == "agree") < 20:
+            raise ToolError(f"vacuity: fewer than 20 programs of family {fam} could be compared")
     rep.assumptions += famcheck.STD_ASSUMPTIONS
     if counts.get("agree", 0) < 30:
         raise ToolError("vacuity: fewer than 30 programs could be compared")
